@@ -383,6 +383,8 @@ class SizeEval:
                     return ConstV(True)
                 if isinstance(op, ast.Eq) and l.lo > c:
                     return ConstV(False)
+                if isinstance(op, ast.NotEq) and l.lo > c:
+                    return ConstV(True)
         return Unknown("comparison")
 
     def length_of(self, v: Any) -> Any:
@@ -552,9 +554,14 @@ class SizeEval:
                     env[p] = self.ev(defaults[di], {}, fi) if di >= 0 else Unknown(f"missing argument {p}")
             try:
                 self.block(fn.body, env, fi)
+                v = ConstV(None)
             except Return as r:
-                return r.v
-            return ConstV(None)
+                v = r.v
+            # returns met under conditions that were not decided are alternatives to `v`: the call has one value only if they agree
+            alts = env.get("__alt_returns__") or []
+            if any(not self.same(a, v) for a in alts):
+                return Unknown("the function returns different values under conditions that are not decided")
+            return v
         finally:
             self.depth -= 1
             self.mult, self.cond_depth = saved_mult, saved_cond
